@@ -2,8 +2,44 @@
 package main
 
 import (
+	"encoding/json"
+	"fmt"
+	"os"
+
+	"github.com/scigolib/hdf5/internal/zzverif/dump"
 	"github.com/scigolib/hdf5/internal/zzverif/ev"
+	"github.com/scigolib/hdf5/internal/zzverif/hx"
 	"github.com/scigolib/hdf5/internal/zzverif/props"
 )
 
-func main() { ev.Main(props.All) }
+func main() {
+	// debugging aid: vcheck script <script.json> <out.h5> runs an operation script and prints
+	// per-operation results and the logical dump of the reopened file
+	if len(os.Args) >= 4 && os.Args[1] == "script" {
+		b, err := os.ReadFile(os.Args[2])
+		if err != nil {
+			fmt.Println(err)
+			os.Exit(2)
+		}
+		var s hx.Script
+		if err := json.Unmarshal(b, &s); err != nil {
+			fmt.Println(err)
+			os.Exit(2)
+		}
+		e := hx.Run(os.Args[3], &s)
+		for i, r := range e.Res {
+			op := "close(final)"
+			if i < len(s.Ops) {
+				op = s.Ops[i].String()
+			}
+			fmt.Printf("%3d %-50s %+v\n", i, op, r)
+		}
+		d := dump.File(os.Args[3], dump.Options{})
+		fmt.Printf("open: %+v\n", d.OpenRes)
+		for _, o := range d.Objects {
+			fmt.Println(o.Logical())
+		}
+		return
+	}
+	ev.Main(props.All)
+}
